@@ -1,4 +1,7 @@
 import VlsModel.Lemmas.Monitor
+import VlsModel.Lemmas.MonitorValid
+import VlsModel.Lemmas.MonitorSim
+import VlsModel.Lemmas.MonitorPre
 /-
 C14 — The monitor's view of a channel is a function of the best chain.
 
@@ -25,9 +28,18 @@ What is proved, and under which hypotheses:
 * `C14_best_chain`: for every history of connections/disconnections in which each connection
   satisfies the hypotheses above, the final state is the replay of the surviving chain, and
   (`C14_reorg_no_abort`) no disconnection panics.
-* `C14_roundtrip_watches_partial`: the watched outpoints (`ListenSlot`) are restored as sets for
-  blocks without HTLC spends; `C14_roundtrip_watches_false` REFUTES the property for a block that
-  spends an HTLC output (finding F13: `apply_backward_change` returns swapped deltas).
+* `C14_stable_of_valid`, `C14_pre_of_valid`, `C14_ds_of_valid`, `C14_roundtrip_valid`: the semantic
+  hypotheses above (stability of detection, `PreAll`, the `ds` condition) are *derived* from two
+  purely structural predicates on the block relative to the state, `ValidBlock` (topological order,
+  no double spend inside the block, funding tx / funding spend at most once) and `SpendFresh`
+  (inputs and txids pairwise distinct, nothing already recorded as spent is spent again, state
+  invariants linking the recorded heights); `GoodWith.of_valid` packages this.  Special cases kept:
+  `C14_stable_of_simple` (change list without `fundingConfirmed`/`unilateral`/`htlcSpent`) and
+  `C14_stable_of_quiet` (`QuietBlock`).  Helper lemmas: `VlsModel/Lemmas/MonitorValid.lean`
+  (detection reads only `State.core`), `MonitorSim.lean` (simulation argument), `MonitorPre.lean`.
+* `C14_roundtrip_watches`: the watched outpoints (`ListenSlot`) are restored as sets for every
+  block, HTLC and second-level spends included (full strength since fix fc0e6dd; the former
+  counter-example is now the positive instance `C14_roundtrip_watches_htlc`).
 -/
 namespace VlsModel.Props.C14
 open VlsModel VlsModel.Monitor
@@ -46,8 +58,8 @@ structure GoodWith (s : State) (txs : List Tx) (cs : List Change) : Prop where
 def Good (s : State) (txs : List Tx) : Prop := ∃ cs, GoodWith s txs cs
 
 /-- Round trip with the watch deltas: remove ∘ add restores every state field (`sawBlock` aside,
-which `add` sets for good), and for change lists without HTLC spends the deltas handed to the
-tracker on removal are permutations of those handed over on addition. -/
+which `add` sets for good), and the deltas handed to the tracker on removal are permutations of
+those handed over on addition (for every change kind, HTLC spends included, since fix fc0e6dd). -/
 theorem C14_roundtrip {s s1 : State} {txs : List Tx} {cs : List Change} {a r : List OutPoint}
     (hwf : WF s)
     (hdet : detect { s with sawBlock := true } txs = some cs)
@@ -56,7 +68,7 @@ theorem C14_roundtrip {s s1 : State} {txs : List Tx} {cs : List Change} {a r : L
     (hadd : addBlock s txs = some (s1, a, r))
     (hstable : detect { s1 with sawBlock := true } txs = some cs) :
     ∃ a' r', removeBlock s1 txs = some ({ s with sawBlock := true }, a', r') ∧
-      ((∀ c ∈ cs, c.isHS = false) → a'.Perm a ∧ r'.Perm r) := by
+      (a'.Perm a ∧ r'.Perm r) := by
   simp only [addBlock, hdet] at hadd
   have hwf' : WF { s with sawBlock := true } := hwf
   obtain ⟨a', r', h1, h2⟩ := addEnd_removeEnd hwf' hpre hds hadd
@@ -95,6 +107,47 @@ theorem Good.roundtrip {s s1 : State} {txs : List Tx} {a r : List OutPoint}
     ∃ a' r', removeBlock s1 txs = some ({ s with sawBlock := true }, a', r') := by
   obtain ⟨cs, g⟩ := g
   exact C14_roundtrip_state g.wf g.det g.pre g.ds hadd (g.stable s1 a r hadd)
+
+/-! ### Stability of detection from structural hypotheses -/
+
+/-- **Stability, simple blocks**: if the detected change list contains no `fundingConfirmed`,
+`unilateral`, `htlcSpent` (the only changes that alter what the listener reads), re-detection on
+the post-block state yields the same change list. -/
+theorem C14_stable_of_simple {s s1 : State} {txs : List Tx} {cs : List Change} {a r : List OutPoint}
+    (hdet : detect { s with sawBlock := true } txs = some cs)
+    (hs : ∀ c ∈ cs, Change.simple c)
+    (hadd : addBlock s txs = some (s1, a, r)) :
+    detect { s1 with sawBlock := true } txs = some cs :=
+  stable_of_simple hdet hs hadd
+
+/-- A block that is *quiet* for the channel (purely structural): no transaction of the block is a
+funding transaction of the channel, spends the funding outpoint, or spends an HTLC output of the
+recorded commitment transaction. -/
+structure QuietBlock (s : State) (txs : List Tx) : Prop where
+  noFunding : ∀ tx ∈ txs, tx.txid ∉ s.fundingTxids
+  noFundingSpend : ∀ tx ∈ txs, ∀ inp ∈ tx.inputs, some inp ≠ s.fundingOutpoint
+  noHtlcSpend : ∀ c, s.closing = some c → ∀ tx ∈ txs, ∀ inp ∈ tx.inputs, c.includesHtlc inp = false
+
+theorem QuietBlock.quietTxs {s : State} {txs : List Tx} (q : QuietBlock s txs) :
+    QuietTxs { s with sawBlock := true } txs :=
+  fun tx h => ⟨q.noFunding tx h, fun inp hi =>
+    ⟨q.noFundingSpend tx h inp hi, fun c hc => q.noHtlcSpend c hc tx h inp hi⟩⟩
+
+/-- **Stability, quiet blocks**: detection on a quiet block is stable (no hypothesis on the
+detected change list). -/
+theorem C14_stable_of_quiet {s s1 : State} {txs : List Tx} {cs : List Change} {a r : List OutPoint}
+    (q : QuietBlock s txs)
+    (hdet : detect { s with sawBlock := true } txs = some cs)
+    (hadd : addBlock s txs = some (s1, a, r)) :
+    detect { s1 with sawBlock := true } txs = some cs :=
+  stable_of_simple hdet (q.quietTxs.simple hdet) hadd
+
+/-- quiet blocks never confirm the funding transaction, so the `ds` hypothesis is void -/
+theorem C14_ds_of_quiet {s : State} {txs : List Tx} {cs : List Change}
+    (q : QuietBlock s txs)
+    (hdet : detect { s with sawBlock := true } txs = some cs) :
+    ∀ op, Change.fundingConfirmed op ∈ cs → s.dsHeight = none :=
+  fun _ h => (q.quietTxs.simple hdet _ h).elim
 
 /-! ### Non-vacuity: concrete blocks satisfying every hypothesis -/
 
@@ -160,6 +213,191 @@ theorem exClose_good :
     rw [h] at key
     simpa using key
 
+/-- **Structural (consensus-)validity of a block relative to the channel state.**  Only txids,
+inputs and state fields are mentioned; nothing about `detect`/`applyForward`.
+
+* `topo`: no input refers to the transaction itself or to a later transaction of the block;
+* `noDoubleSpend`: no outpoint is spent by two different transactions of the block;
+* `fundOnce`: at most one transaction of the block has a funding txid of the channel;
+* `fundFresh`: if the funding outpoint is already recorded, no funding transaction is in the block;
+* `closeOnce`: if a closing transaction is already recorded, no input of the block spends the
+  funding outpoint (together with `noDoubleSpend`: the funding outpoint is spent at most once);
+* `closingFunded`: state invariant, a recorded closing implies a recorded funding outpoint. -/
+structure ValidBlock (s : State) (txs : List Tx) : Prop where
+  topo : Topo txs
+  noDoubleSpend : NoDoubleSpend txs
+  fundOnce : FundOnce s.fundingTxids txs
+  fundFresh : s.fundingOutpoint.isSome → ∀ tx ∈ txs, tx.txid ∉ s.fundingTxids
+  closeOnce : s.closing.isSome → ∀ tx ∈ txs, ∀ inp ∈ tx.inputs, some inp ≠ s.fundingOutpoint
+  closingFunded : s.closing.isSome → s.fundingOutpoint.isSome
+
+theorem ValidBlock.ok {s : State} {txs : List Tx} (v : ValidBlock s txs) :
+    Ok { s with sawBlock := true } txs :=
+  ⟨v.fundFresh, v.closeOnce, v.closingFunded, v.fundOnce, v.noDoubleSpend⟩
+
+/-- **Stability of detection from structural validity**: for a structurally valid block, the
+listener re-detects on the post-block state exactly the change list it detected when the block was
+connected (this was the hypothesis `stable` of `GoodWith`). -/
+theorem C14_stable_of_valid {s s1 : State} {txs : List Tx} {cs : List Change} {a r : List OutPoint}
+    (v : ValidBlock s txs)
+    (hdet : detect { s with sawBlock := true } txs = some cs)
+    (hadd : addBlock s txs = some (s1, a, r)) :
+    detect { s1 with sawBlock := true } txs = some cs :=
+  stable_of_ok v.ok v.topo hdet hadd
+
+/-- the `ds` hypothesis from a structural one: the funding transaction is only in the block if no
+double spend of a funding input is recorded -/
+theorem C14_ds_of_valid {s : State} {txs : List Tx} {cs : List Change}
+    (hds : (∃ tx ∈ txs, tx.txid ∈ s.fundingTxids) → s.dsHeight = none)
+    (hdet : detect { s with sawBlock := true } txs = some cs) :
+    ∀ op, Change.fundingConfirmed op ∈ cs → s.dsHeight = none := by
+  intro op hop
+  obtain ⟨x, hx, hx2⟩ := Option.map_eq_some_iff.mp hdet
+  obtain ⟨n, csn⟩ := x
+  simp only at hx2
+  subst hx2
+  rcases fundingConfirmed_of_detectFrom hx op hop with h | h
+  · simp at h
+  · exact hds h
+
+/-- Round trip for structurally valid blocks, applicability (`pre`) still a hypothesis
+(`stable` and `ds` of `GoodWith` replaced by `ValidBlock` and a structural `ds` condition). -/
+theorem C14_roundtrip_valid_of_pre {s s1 : State} {txs : List Tx} {cs : List Change}
+    {a r : List OutPoint}
+    (hwf : WF s) (v : ValidBlock s txs)
+    (hdsv : (∃ tx ∈ txs, tx.txid ∈ s.fundingTxids) → s.dsHeight = none)
+    (hdet : detect { s with sawBlock := true } txs = some cs)
+    (hpre : PreAll { s with sawBlock := true, height := s.height + 1 } cs)
+    (hadd : addBlock s txs = some (s1, a, r)) :
+    ∃ a' r', removeBlock s1 txs = some ({ s with sawBlock := true }, a', r') ∧
+      (a'.Perm a ∧ r'.Perm r) :=
+  C14_roundtrip hwf hdet hpre (C14_ds_of_valid hdsv hdet) hadd (C14_stable_of_valid v hdet hadd)
+
+/-- **Nothing in the block is already recorded as spent / confirmed** (structural, relative to the
+state; `ins` = all inputs of the block, `ids` = all txids of the block):
+
+* `inputsNodup`: all inputs of the block are pairwise distinct; `txidsNodup`: so are the txids;
+* `ourUnspent` / `htlcUnspent` / `secondUnspent`: an output of the recorded commitment transaction
+  (our output, an HTLC output, a second-level HTLC outpoint) whose spent flag is already set is not
+  spent again by the block;
+* `secondFresh`: no recorded second-level outpoint belongs to a transaction of the block;
+* `fundingLinked`, `uniLinked`: state invariants linking the recorded heights to the recorded
+  funding outpoint / closing transaction;
+* `mutualFinal`: after a recorded mutual close the funding outpoint is recorded and not spent again;
+* `dsFresh`: the funding transaction is in the block only if no double spend is recorded. -/
+structure SpendFresh (s : State) (txs : List Tx) : Prop where
+  inputsNodup : (txs.flatMap (·.inputs)).Nodup
+  txidsNodup : (txs.map (·.txid)).Nodup
+  ourUnspent : ∀ c i, s.closing = some c → c.our = some (i, true) →
+    (c.txid, i) ∉ txs.flatMap (·.inputs)
+  htlcUnspent : ∀ c v i, s.closing = some c → position v c.htlcOutputs = some i →
+    c.htlcSpents[i]? = some true → (c.txid, v) ∉ txs.flatMap (·.inputs)
+  secondUnspent : ∀ c e, s.closing = some c → e ∈ c.second → e.2 = true →
+    e.1 ∉ txs.flatMap (·.inputs)
+  secondFresh : ∀ c e, s.closing = some c → e ∈ c.second → e.1.1 ∉ txs.map (·.txid)
+  fundingLinked : s.fundingHeight.isSome → s.fundingOutpoint.isSome
+  uniLinked : s.uniHeight.isSome → s.closing.isSome
+  mutualFinal : s.mutualHeight.isSome → s.fundingOutpoint.isSome ∧
+    ∀ inp ∈ txs.flatMap (·.inputs), some inp ≠ s.fundingOutpoint
+  dsFresh : (∃ tx ∈ txs, tx.txid ∈ s.fundingTxids) → s.dsHeight = none
+
+theorem SpendFresh.jinv {s : State} {txs : List Tx} (f : SpendFresh s txs) :
+    JInv (txs.flatMap (·.inputs)) (txs.map (·.txid)) { s with sawBlock := true } :=
+  ⟨f.ourUnspent, f.htlcUnspent, f.secondUnspent, f.secondFresh, f.fundingLinked, f.uniLinked,
+    f.mutualFinal⟩
+
+/-- **Applicability of the detected changes from structural validity**: every change the listener
+detects on a structurally valid block with fresh spends is applicable where it is applied (this was
+the hypothesis `pre` of `GoodWith`). -/
+theorem C14_pre_of_valid {s : State} {txs : List Tx} {cs : List Change}
+    (v : ValidBlock s txs) (f : SpendFresh s txs)
+    (hdet : detect { s with sawBlock := true } txs = some cs) :
+    PreAll { s with sawBlock := true, height := s.height + 1 } cs :=
+  preAll_of_ok v.ok f.jinv f.inputsNodup f.txidsNodup hdet
+
+/-- all hypotheses of `GoodWith` from `WF` and the two structural predicates (plus the fact that
+detection itself did not panic) -/
+theorem GoodWith.of_valid {s : State} {txs : List Tx} {cs : List Change}
+    (hwf : WF s) (v : ValidBlock s txs) (f : SpendFresh s txs)
+    (hdet : detect { s with sawBlock := true } txs = some cs) :
+    GoodWith s txs cs :=
+  ⟨hwf, hdet, C14_pre_of_valid v f hdet, C14_ds_of_valid f.dsFresh hdet,
+    fun _ _ _ hadd => C14_stable_of_valid v hdet hadd⟩
+
+theorem Good.of_valid {s : State} {txs : List Tx} {cs : List Change}
+    (hwf : WF s) (v : ValidBlock s txs) (f : SpendFresh s txs)
+    (hdet : detect { s with sawBlock := true } txs = some cs) : Good s txs :=
+  ⟨cs, GoodWith.of_valid hwf v f hdet⟩
+
+/-- **C14 round trip from structural hypotheses only**: for a well-formed state and a structurally
+valid block whose spends are fresh, disconnecting the block just connected restores every state
+field, does not panic, and returns watch deltas that are permutations of those of the connection.
+(`stable`, `pre`, `ds` of `GoodWith` are all derived.) -/
+theorem C14_roundtrip_valid {s s1 : State} {txs : List Tx} {a r : List OutPoint}
+    (hwf : WF s) (v : ValidBlock s txs) (f : SpendFresh s txs)
+    (hadd : addBlock s txs = some (s1, a, r)) :
+    ∃ a' r', removeBlock s1 txs = some ({ s with sawBlock := true }, a', r') ∧
+      (a'.Perm a ∧ r'.Perm r) := by
+  cases hdet : detect { s with sawBlock := true } txs with
+  | none => simp [addBlock, hdet] at hadd
+  | some cs =>
+    exact C14_roundtrip hwf hdet (C14_pre_of_valid v f hdet) (C14_ds_of_valid f.dsFresh hdet) hadd
+      (C14_stable_of_valid v hdet hadd)
+
+/-- non-vacuity: the close+sweep block (a unilateral close and the sweep of our output *in the same
+block*) is structurally valid -/
+theorem exClose_valid : ValidBlock exS1 exCloseSweepBlock where
+  topo := by simp [Topo, exCloseSweepBlock]
+  noDoubleSpend := by simp [NoDoubleSpend, exCloseSweepBlock]
+  fundOnce := by simp [FundOnce, exCloseSweepBlock, exS1, exS0, State.init]
+  fundFresh := by simp [exCloseSweepBlock, exS1, exS0, State.init]
+  closeOnce := by simp [exS1, exS0, State.init]
+  closingFunded := by simp [exS1, exS0, State.init]
+
+theorem exFunding_valid : ValidBlock exS0 exFundingBlock where
+  topo := by simp [Topo, exFundingBlock]
+  noDoubleSpend := by simp [NoDoubleSpend, exFundingBlock]
+  fundOnce := by simp [FundOnce, exFundingBlock]
+  fundFresh := by simp [exS0, State.init]
+  closeOnce := by simp [exS0, State.init]
+  closingFunded := by simp [exS0, State.init]
+
+theorem exClose_fresh : SpendFresh exS1 exCloseSweepBlock where
+  inputsNodup := by decide
+  txidsNodup := by decide
+  ourUnspent := by simp [exS1, exS0, State.init]
+  htlcUnspent := by simp [exS1, exS0, State.init]
+  secondUnspent := by simp [exS1, exS0, State.init]
+  secondFresh := by simp [exS1, exS0, State.init]
+  fundingLinked := by simp [exS1, exS0, State.init]
+  uniLinked := by simp [exS1, exS0, State.init]
+  mutualFinal := by simp [exS1, exS0, State.init]
+  dsFresh := by simp [exS1, exS0, State.init]
+
+theorem exFunding_fresh : SpendFresh exS0 exFundingBlock where
+  inputsNodup := by decide
+  txidsNodup := by decide
+  ourUnspent := by simp [exS0, State.init]
+  htlcUnspent := by simp [exS0, State.init]
+  secondUnspent := by simp [exS0, State.init]
+  secondFresh := by simp [exS0, State.init]
+  fundingLinked := by simp [exS0, State.init]
+  uniLinked := by simp [exS0, State.init]
+  mutualFinal := by simp [exS0, State.init]
+  dsFresh := by simp [exS0, State.init]
+
+/-- the structural round trip applies to the close+sweep block -/
+example : ∃ s1 a r, addBlock exS1 exCloseSweepBlock = some (s1, a, r) ∧
+    ∃ a' r', removeBlock s1 exCloseSweepBlock = some ({ exS1 with sawBlock := true }, a', r') := by
+  cases h : addBlock exS1 exCloseSweepBlock with
+  | none => exact absurd h (by decide)
+  | some d =>
+    obtain ⟨s1, a, r⟩ := d
+    obtain ⟨a', r', h1, _⟩ := C14_roundtrip_valid
+      ⟨by decide, by decide, by intro h0 h; simp [exS1, exS0, State.init] at h⟩
+      exClose_valid exClose_fresh h
+    exact ⟨s1, a, r, rfl, a', r', h1⟩
+
 /-- both blocks connect without panic; the close+sweep block sets both swept heights, so the
 swept-height bookkeeping of the round trip is exercised -/
 example : (addBlock exS0 exFundingBlock).map (fun d => (d.1.fundingHeight, d.1.dsHeight)) =
@@ -185,12 +423,13 @@ theorem C14_forward_order_aborts :
 
 /-! ### Watched outpoints (`ListenSlot`) -/
 
-/-- **C14, watches, partial**: for a block whose change list contains no HTLC spend
-(`htlcSpent`/`secondSpent`), the deltas `(A', R')` returned on disconnection are permutations of
-the deltas `(A, R)` returned on connection, and a slot for which the additions are new
-(`A ∩ watches = ∅`), every removal is of something watched or just added, and no removal was seen
-before, has after add-then-remove the same watched and the same seen outpoints (as sets). -/
-theorem C14_roundtrip_watches_partial {s s1 : State} {txs : List Tx} {cs : List Change}
+/-- **C14, watches**: for every block (HTLC and second-level spends included) the deltas `(A', R')`
+returned on disconnection are permutations of the deltas `(A, R)` returned on connection, and a
+slot for which the additions are new (`A ∩ watches = ∅`), every removal is of something watched or
+just added, and no removal was seen before, has after add-then-remove the same watched and the
+same seen outpoints (as sets).  (Before fix fc0e6dd this failed for blocks with HTLC spends:
+finding F16, formerly refuted here by `C14_roundtrip_watches_false`.) -/
+theorem C14_roundtrip_watches {s s1 : State} {txs : List Tx} {cs : List Change}
     {A R : List OutPoint} (sl : Slot)
     (hwf : WF s)
     (hdet : detect { s with sawBlock := true } txs = some cs)
@@ -198,7 +437,6 @@ theorem C14_roundtrip_watches_partial {s s1 : State} {txs : List Tx} {cs : List 
     (hds : ∀ op, Change.fundingConfirmed op ∈ cs → s.dsHeight = none)
     (hadd : addBlock s txs = some (s1, A, R))
     (hstable : detect { s1 with sawBlock := true } txs = some cs)
-    (hnoHtlc : ∀ c ∈ cs, c.isHS = false)
     (h1 : ∀ x ∈ A, x ∉ sl.watches) (h2 : ∀ x ∈ R, x ∈ A ∨ x ∈ sl.watches)
     (h3 : ∀ x ∈ R, x ∉ sl.seen) :
     ∃ A' R', removeBlock s1 txs = some ({ s with sawBlock := true }, A', R') ∧
@@ -206,7 +444,7 @@ theorem C14_roundtrip_watches_partial {s s1 : State} {txs : List Tx} {cs : List 
       (∀ x, x ∈ ((sl.onAdd A R).onRemove A' R').watches ↔ x ∈ sl.watches) ∧
       (∀ x, x ∈ ((sl.onAdd A R).onRemove A' R').seen ↔ x ∈ sl.seen) := by
   obtain ⟨A', R', hrem, hperm⟩ := C14_roundtrip hwf hdet hpre hds hadd hstable
-  obtain ⟨pA, pR⟩ := hperm hnoHtlc
+  obtain ⟨pA, pR⟩ := hperm
   obtain ⟨w, sn⟩ := slot_roundtrip sl A R A' R' pA pR h1 h2 h3
   exact ⟨A', R', hrem, pA, pR, w, sn⟩
 
@@ -219,19 +457,14 @@ def exL : Listener :=
 /-- block with a transaction (txid 30) spending the HTLC outpoint (20,1) -/
 def exHtlcBlock : List Tx := [{ txid := 30, inputs := [(20, 1)], nOut := 1, kind := .plain }]
 
-/-- **C14, watches, REFUTED** (finding F13): connect then disconnect a block that spends an HTLC
-output.  The monitor state is restored, but the slot is not: the HTLC outpoint (20,1), watched
-before, is no longer watched (and stays in `seen`), while the second-level outpoint (30,0), which
-exists on no chain any more, is watched.  Cause: `apply_backward_change` returns the
-adds/removes of `HTLCOutputSpent` swapped with respect to `apply_forward_change`. -/
-theorem C14_roundtrip_watches_false :
-    (exL.add exHtlcBlock).bind (·.remove exHtlcBlock) =
-      some { st := exL.st,
-             slot := { txidWatches := [], watches := [(30, 0), (30, 0)], seen := [(7, 0), (20, 1)] } } ∧
-    (20, 1) ∈ exL.slot.watches ∧ (20, 1) ∉ [((30 : Nat), (0 : Nat)), (30, 0)] := by decide
+/-- The former counter-example (finding F16, fixed by fc0e6dd): connect then disconnect a block
+that spends an HTLC output.  State **and** slot are restored exactly: the HTLC outpoint (20,1) is
+watched again, the second-level outpoint (30,0) is not, `seen` is as before. -/
+theorem C14_roundtrip_watches_htlc :
+    (exL.add exHtlcBlock).bind (·.remove exHtlcBlock) = some exL ∧
+    ((exL.add exHtlcBlock).map (·.slot.watches)) = some [(30, 0)] := by decide
 
-/-- the refuting block satisfies every hypothesis of the state round trip (so the failure is in
-the watch deltas only, not in a violated precondition) -/
+/-- the HTLC block satisfies every hypothesis of the round trip -/
 theorem exHtlc_good : GoodWith exL.st exHtlcBlock [.htlcSpent 1 (30, 0)] where
   wf := ⟨by decide, by decide, by intro h0 h; simp [exL, exS1, exS0, State.init] at h⟩
   det := by decide
@@ -244,6 +477,48 @@ theorem exHtlc_good : GoodWith exL.st exHtlcBlock [.htlcSpent 1 (30, 0)] where
         some (some [.htlcSpent 1 (30, 0)]) := by decide
     rw [h] at key
     simpa using key
+
+/-- the HTLC-spend block is structurally valid and its spends are fresh, so the structural round
+trip covers HTLC spends as well -/
+theorem exHtlc_valid : ValidBlock exL.st exHtlcBlock where
+  topo := by simp [Topo, exHtlcBlock]
+  noDoubleSpend := by simp [NoDoubleSpend, exHtlcBlock]
+  fundOnce := by simp [FundOnce, exHtlcBlock, exL, exS1, exS0, State.init]
+  fundFresh := by simp [exHtlcBlock, exL, exS1, exS0, State.init]
+  closeOnce := by simp [exHtlcBlock, exL, exS1, exS0, State.init]
+  closingFunded := by simp [exL, exS1, exS0, State.init]
+
+theorem exHtlc_fresh : SpendFresh exL.st exHtlcBlock where
+  inputsNodup := by decide
+  txidsNodup := by decide
+  ourUnspent := by
+    intro c i hc ho
+    simp only [exL, Option.some.injEq] at hc
+    subst hc
+    simp [Closing.new] at ho
+  htlcUnspent := by
+    intro c v i hc _ hs
+    simp only [exL, Option.some.injEq] at hc
+    subst hc
+    exact absurd hs (getElem?_map_false _ _)
+  secondUnspent := by
+    intro c e hc he
+    simp only [exL, Option.some.injEq] at hc
+    subst hc
+    simp [Closing.new] at he
+  secondFresh := by
+    intro c e hc he
+    simp only [exL, Option.some.injEq] at hc
+    subst hc
+    simp [Closing.new] at he
+  fundingLinked := by simp [exL, exS1, exS0, State.init]
+  uniLinked := by simp [exL, exS1, exS0, State.init]
+  mutualFinal := by simp [exL, exS1, exS0, State.init]
+  dsFresh := by simp [exHtlcBlock, exL, exS1, exS0, State.init]
+
+example : GoodWith exL.st exHtlcBlock [.htlcSpent 1 (30, 0)] :=
+  GoodWith.of_valid ⟨by decide, by decide, by intro h0 h; simp [exL, exS1, exS0, State.init] at h⟩
+    exHtlc_valid exHtlc_fresh (by decide)
 
 /-! ### Arbitrary histories: the view is a function of the best chain -/
 
@@ -358,6 +633,45 @@ theorem C14_reorg_no_abort {s0 s : State} {st : List (List Tx)} {ops : List Op}
     (hr : run (s0, []) ops = some (s, st)) (hne : st ≠ []) :
     step (s, st) .remove ≠ none :=
   (Chain.step h0 (Chain.run h0 (p := (s0, [])) rfl hg hr) .remove trivial).2 rfl hne
+
+/-- every connection in the history happens at a well-formed state, with a structurally valid
+block whose spends are fresh, and the listener does not panic while scanning the block -/
+def ValidRun : Cfg → List Op → Prop
+  | _, [] => True
+  | p, op :: ops =>
+    (match op with
+      | .add txs => WF p.1 ∧ ValidBlock p.1 txs ∧ SpendFresh p.1 txs ∧
+          detect { p.1 with sawBlock := true } txs ≠ none
+      | .remove => True) ∧
+    ∀ p', step p op = some p' → ValidRun p' ops
+
+theorem ValidRun.goodRun {p : Cfg} {ops : List Op} (h : ValidRun p ops) : GoodRun p ops := by
+  induction ops generalizing p with
+  | nil => trivial
+  | cons op ops ih =>
+    refine ⟨?_, fun p' hp' => ih (h.2 p' hp')⟩
+    cases op with
+    | remove => trivial
+    | add txs =>
+      obtain ⟨hwf, v, f, hd⟩ := h.1
+      cases hdet : detect { p.1 with sawBlock := true } txs with
+      | none => exact absurd hdet hd
+      | some cs => exact Good.of_valid hwf v f hdet
+
+/-- **C14, best chain, structural form**: `C14_best_chain` with the semantic hypotheses of `Good`
+replaced by `WF` + `ValidBlock` + `SpendFresh` at every connection. -/
+theorem C14_best_chain_valid {s0 s : State} {st : List (List Tx)} {ops : List Op}
+    (h0 : s0.sawBlock = true) (hg : ValidRun (s0, []) ops)
+    (hr : run (s0, []) ops = some (s, st)) :
+    replay s0 st = some s :=
+  C14_best_chain h0 hg.goodRun hr
+
+/-- **C14, a reorganisation never aborts, structural form** -/
+theorem C14_reorg_no_abort_valid {s0 s : State} {st : List (List Tx)} {ops : List Op}
+    (h0 : s0.sawBlock = true) (hg : ValidRun (s0, []) ops)
+    (hr : run (s0, []) ops = some (s, st)) (hne : st ≠ []) :
+    step (s, st) .remove ≠ none :=
+  C14_reorg_no_abort h0 hg.goodRun hr hne
 
 /-- non-vacuity of the history theorems: connect the close+sweep block, then disconnect it -/
 example : GoodRun (exS1, []) [.add exCloseSweepBlock, .remove] :=
